@@ -104,7 +104,7 @@ def property_theorems(prop_files):
             m = re.match(r"end (\S+)", line)
             if m and ns and ns[-1] == m.group(1):
                 ns.pop()
-            m = re.match(r"(?:private |protected |noncomputable )*theorem\s+(\S+)", line)
+            m = re.match(r"(?:protected |noncomputable )*theorem\s+(\S+)", line)
             if m:
                 names.append(".".join(ns + [m.group(1)]))
         mod = rel[:-5].replace("/", ".")
@@ -287,7 +287,9 @@ class Report:
         # a broken tie without a concrete failing input is still a violation (no-failing-input-found)
         lines = []
         REPLAYS.joinpath(self.prop).mkdir(parents=True, exist_ok=True)
-        for v in self.violations:
+        for v in self.violations[:6]:   # at most six lines; every further finding is listed inside the first replay
+            if v is self.violations[0] and len(self.violations) > 1:
+                v = dict(v, all_findings=[{"key": w["key"], "what": w["what"], "case": w["case"]} for w in self.violations[:50]])
             rp = self._replay(v)
             lines.append(f"VIOLATION property={self.prop} replay={rp}")
         if self.broken and not self.violations:
@@ -351,7 +353,7 @@ def import_qib():
 # generic correspondence runner
 # ---------------------------------------------------------------------------------------------
 
-def run_correspondence(rep: Report, drv, cases, impl, model_req, compare, oracle, opname, batch=4000, nontrivial=None):
+def run_correspondence(rep: Report, drv, cases, impl, model_req, compare, oracle, opname, batch=4000, nontrivial=None, req_uses_output=False):
     """For every case: run the real implementation (`impl`), the direct property oracle on what the
     implementation did (`oracle` -> list of (key, what)), and - when a driver is available - the Lean
     model on the same input (`model_req` -> request dict); `compare(case, impl_out, model_reply)` returns
@@ -365,7 +367,7 @@ def run_correspondence(rep: Report, drv, cases, impl, model_req, compare, oracle
         if drv is not None:
             reqs = []
             for i, (c, o) in enumerate(buf):
-                r = model_req(c)
+                r = model_req(c, o) if req_uses_output else model_req(c)
                 r["id"] = i
                 reqs.append(r)
             try:
@@ -374,8 +376,9 @@ def run_correspondence(rep: Report, drv, cases, impl, model_req, compare, oracle
                 rep.tie_broken(opname, "correspondence", f"driver failed: {e}")
                 replies = None
         for i, (c, o) in enumerate(buf):
+            pub = {k: v for k, v in o.items() if not k.startswith("_")} if isinstance(o, dict) else o
             for key, what in oracle(c, o):
-                rep.finding(key, what, c, observed=o)
+                rep.finding(key, what, c, observed=pub)
             if replies is not None:
                 r = replies[i]
                 if "err" in r:
@@ -385,7 +388,7 @@ def run_correspondence(rep: Report, drv, cases, impl, model_req, compare, oracle
                 if d:
                     rep.count("disagreements")
                     if len([b for b in rep.broken if b["broken"] == opname]) < 3:
-                        rep.tie_broken(opname, "correspondence", d, case=c, expected=r.get("ok", r.get("err")), observed=o)
+                        rep.tie_broken(opname, "correspondence", d, case=c, expected=(r.get("err") if "err" in r else None), observed=pub)
         buf.clear()
 
     for c in cases:
